@@ -12,6 +12,8 @@ The analysis is a small abstract interpreter over Python statements.  Abstract v
          result/deepcopy) or a view (subscript/reshape/transpose/…) of such an object
     FOF  fresh container whose elements are themselves fresh containers (defaultdict(list) …); demoted
          to FO as soon as anything not fresh is stored into it
+    FOP  fresh list/generator of (key, value) pairs whose values are fresh objects built per element
+         (`[(k, []) for k in ks]`); `OrderedDict(FOP)` / `dict(FOP)` is FOF.  Otherwise behaves like FO.
     FO   fresh container/object (list/dict/set/OrderedDict constructor, literal, comprehension,
          `.copy()`): the object itself is private to this call, its *elements* are not
     IM   immutable value (constant, tuple, frozenset, str, int(), len(), .shape …): `x += …` rebinds
@@ -35,7 +37,7 @@ from collections import OrderedDict
 EXCLUDE_DIRS = ("torch", "jax", "pyro", "examples")
 EXCLUDE_FILES = ("minipyro.py",)
 
-FA, FO, FOF, IM, SI, N = "FA", "FO", "FOF", "IM", "SI", "N"
+FA, FO, FOF, FOP, IM, SI, N = "FA", "FO", "FOF", "FOP", "IM", "SI", "N"
 
 
 def join(a, b):
@@ -51,7 +53,7 @@ def join(a, b):
         if isinstance(a, tuple) and isinstance(b, tuple) and len(a) == len(b):
             return tuple(join(x, y) for x, y in zip(a, b))
         return N
-    if FO in (a, b) or FOF in (a, b):
+    if FO in (a, b) or FOF in (a, b) or FOP in (a, b):
         return FO
     return FA          # FA ⊔ IM : either a private array or an immutable; both are safe to `+=`
 
@@ -206,24 +208,34 @@ class FuncScan:
             self.bind(g.target, N, env2)
             for c in g.ifs:
                 self.ev(c, env2)
-        for p in parts:
-            self.ev(p, env2)
+        return [self.ev(p, env2) for p in parts]
+
+    @staticmethod
+    def _fresh_elem(v):
+        return v in (FO, FA, FOF, FOP)
+
+    def _seq_of(self, elt_value):
+        """Abstract value of a list/generator comprehension from the value of its element expression:
+        elements built fresh per iteration -> FOF; (key, fresh value) pairs -> FOP."""
+        if self._fresh_elem(elt_value):
+            return FOF
+        if isinstance(elt_value, tuple) and len(elt_value) == 2 and self._fresh_elem(elt_value[1]):
+            return FOP
+        return FO
 
     def ev_ListComp(self, e, env):
-        self._comp(e, env, [e.elt])
-        return FO
+        return self._seq_of(self._comp(e, env, [e.elt])[0])
 
     def ev_SetComp(self, e, env):
         self._comp(e, env, [e.elt])
         return FO
 
     def ev_GeneratorExp(self, e, env):
-        self._comp(e, env, [e.elt])
-        return FO
+        return self._seq_of(self._comp(e, env, [e.elt])[0])
 
     def ev_DictComp(self, e, env):
-        self._comp(e, env, [e.key, e.value])
-        return FO
+        vals = self._comp(e, env, [e.key, e.value])
+        return FOF if self._fresh_elem(vals[1]) else FO
 
     def ev_BinOp(self, e, env):
         a = self.ev(e.left, env)
@@ -334,10 +346,19 @@ class FuncScan:
             if name == "defaultdict" and len(e.args) == 1 and isinstance(e.args[0], ast.Name) \
                     and e.args[0].id in ("list", "set", "dict", "OrderedDict") and not e.keywords:
                 return FOF
+            if name in ("OrderedDict", "dict") and len(argv) == 1 and argv[0] == FOP and not e.keywords:
+                return FOF
+            if name in ("list", "sorted", "deque") and len(argv) == 1 and argv[0] == FOF and not e.keywords \
+                    and not isinstance(e.args[0], ast.Name):
+                return FOF          # a fresh sequence of per-element fresh objects, consumed on the spot
             if name in FRESH_CTORS or name == "get_type_hints":
+                self.escape_args(e, env)
                 return FO
             if name in IMM_FUNCS:
+                if name in ("zip", "map", "filter", "reduce", "iter", "enumerate", "reversed"):
+                    self.escape_args(e, env)      # hands out the elements
                 return IM
+            self.escape_args(e, env)
             if name == "deepcopy":
                 return FA
             if name == "copy":
@@ -348,6 +369,7 @@ class FuncScan:
                 return FO           # constructor of a plain (non-term, no metaclass, no __new__) class
             return self.sc.summary(self.file, name)
         if isinstance(f, ast.Attribute):
+            self.escape_args(e, env)
             recv = f.value
             attr = f.attr
             is_mod = isinstance(recv, ast.Name) and recv.id in MODULE_ALIASES and recv.id not in env
@@ -412,9 +434,19 @@ class FuncScan:
                               and recv.func.id == "super")
                 if not own_method:
                     self.site(e, "containerMethod", recv, env)
-                if isinstance(recv, ast.Name) and env.get(recv.id) == FOF and attr not in ("pop", "popitem", "clear", "move_to_end"):
-                    if not all(_flat(a) in (FO, FA, FOF) for a in argv[-1:]) or attr in ("update", "extend"):
-                        env[recv.id] = FO
+                was_fof = isinstance(recv, ast.Name) and env.get(recv.id) == FOF
+                if was_fof and attr not in ("pop", "popitem", "clear", "move_to_end"):
+                    if not all(self._fresh_elem(_flat(a)) for a in argv[-1:]) or attr in ("update", "extend") \
+                            or not argv:
+                        self.demote_fof(env)
+                if was_fof and env.get(recv.id) == FOF:
+                    # elements of a container of fresh objects are fresh objects
+                    if attr == "pop" and len(argv) <= 1:
+                        return FO
+                    if attr == "popitem":
+                        return (N, FO)
+                    if attr == "setdefault" and len(argv) == 2:
+                        return FO
                 return N
             if attr in ("copy", "clone"):
                 return FO
@@ -431,6 +463,23 @@ class FuncScan:
         self.ev(f, env)
         return N
 
+    def demote_fof(self, env):
+        """Something not provably fresh may have been put into a container of fresh objects; aliases are
+        not tracked, so every such container of this function loses the property."""
+        for k, v in list(env.items()):
+            if v == FOF:
+                env[k] = FO
+
+    def escape_args(self, e, env):
+        """A container of fresh objects handed to a callee (which may insert anything, or hand its
+        elements on) is afterwards only a fresh container."""
+        for a in list(e.args) + [kw.value for kw in e.keywords]:
+            if isinstance(a, ast.Starred):
+                a = a.value
+            if isinstance(a, ast.Name) and env.get(a.id) == FOF:
+                self.demote_fof(env)
+                return
+
     # ---- stores -----------------------------------------------------------------------------------
     def classify_object(self, obj, env, attr_store=False):
         """Provenance of the object denoted by expression `obj` (the thing being written into)."""
@@ -438,7 +487,7 @@ class FuncScan:
             return "importTime", "module/class body executes once at import"
         v = self.ev(obj, env)
         v = _flat(v) if not isinstance(v, tuple) else IM
-        if v in (FA, FO, FOF):
+        if v in (FA, FO, FOF, FOP):
             return "freshLocal", v
         if v == SI:
             return ("initSelf", "self in __init__/__new__") if attr_store else ("notFresh", "self")
@@ -490,10 +539,14 @@ class FuncScan:
         elif isinstance(t, ast.Subscript):
             self.ev(t.slice, env)
             self.site(stmt, "subscriptStore", t.value, env)
-            if isinstance(t.value, ast.Name) and env.get(t.value.id) == FOF and _flat(v) not in (FO, FA, FOF):
-                env[t.value.id] = FO
+            if isinstance(t.value, ast.Name) and env.get(t.value.id) == FOF and not self._fresh_elem(_flat(v)):
+                self.demote_fof(env)
+            if v == FOF:
+                self.demote_fof(env)      # the container itself escapes into another object
         elif isinstance(t, ast.Attribute):
             self.site(stmt, "attrStore", t.value, env, attr_store=True, target_text=ast.unparse(t))
+            if v == FOF:
+                self.demote_fof(env)
 
     def bind(self, t, v, env):
         if isinstance(t, ast.Name):
